@@ -111,6 +111,12 @@ func (vc *VC) applyContract(callee *ssa.Function, args []Term, h *Heap, reach *s
 
 // applyContractOn applies the callee's contract in state pre (not modified) and returns the post state.
 func (vc *VC) applyContractOn(callee *ssa.Function, args []Term, preIn *Heap, r string) ([]Term, *Heap) {
+	rOverride := ""
+	defer func() {
+		if rOverride != "" {
+			vc.lastCallReach = rOverride
+		}
+	}()
 	c := vc.prog.contractFor(callee)
 	key := vc.prog.keyOf[callee]
 	if key == "" {
@@ -161,7 +167,14 @@ func (vc *VC) applyContractOn(callee *ssa.Function, args []Term, preIn *Heap, r 
 			vc.assume(r, and(env.lastFacts...))
 			vc.check("call."+label, r, not(s), "callee "+label+" panics when "+c.PanicsWhen.Src)
 		default:
-			vc.safety("call."+label, r, "false", "callee "+label+" has no panic-freedom contract")
+			if vc.fn.Recover != nil && vc.panicking == "" {
+				pf := vc.fresh("callee_panics", SBool)
+				vc.panicPath(preIn, and(r, pf), vc.prog.modset(callee))
+				r = vc.define("no_panic", SBool, and(r, not(pf)))
+				rOverride = r
+			} else {
+				vc.safety("call."+label, r, "false", "callee "+label+" has no panic-freedom contract")
+			}
 		}
 		if c.Trusted != "" {
 			vc.trusted[key+": "+c.Trusted] = true
@@ -188,6 +201,12 @@ func (vc *VC) applyContractOn(callee *ssa.Function, args []Term, preIn *Heap, r 
 	post := pre.clone()
 	vc.havocFor(post, ms)
 	res := vc.resultTerms(callee.Signature, post, r, label)
+	if c != nil && c.Props["records"] != "" && len(res) > 0 {
+		// ghost: the first result of the latest call of this function
+		g := "Gres_" + sanitize(callee.Name())
+		vc.compDecl(g, res[0].Sort)
+		vc.set(post, g, res[0].S)
+	}
 	if c != nil {
 		// frame from an explicit modifies clause
 		if c.HasModifies {
@@ -465,7 +484,15 @@ func (vc *VC) execBuiltin(b *ssa.Builtin, c *ssa.CallCommon, h *Heap, reach stri
 		vc.set(h, has, ite(nz, app("store", vc.get(h, has), m.S, app("store", hasRow, k.S, "false")), vc.get(h, has)))
 		return nil
 	case "recover":
-		return []Term{mk(vc.fresh("recovered", SIface), SIface)}
+		// non-nil exactly when the deferred call runs because of a panic
+		r := vc.fresh("recovered", SIface)
+		pan := vc.panicking
+		if pan == "" {
+			pan = "false"
+		}
+		vc.emit(fmt.Sprintf("(assert (= %s (not (= (i.tag %s) 0))))", pan, r))
+		vc.emit(fmt.Sprintf("(assert (=> (= (i.tag %s) 0) (= (i.val %s) 0)))", r, r))
+		return []Term{mk(r, SIface)}
 	case "print", "println":
 		return nil
 	case "panic":
@@ -553,16 +580,154 @@ func (vc *VC) execAppend(c *ssa.CallCommon, h *Heap, reach string) Term {
 	return mk(vc.define("app_res", SSlice, res), SSlice).withType(c.Args[0].Type())
 }
 
-// ---- defer ---------------------------------------------------------------------
+// ---- defer, panics, recover -----------------------------------------------------------
 
+// execRunDefers runs the deferred calls (last first).  Deferred closures are inlined.
 func (vc *VC) execRunDefers(h *Heap, reach *string) {
+	vc.runDefers(h, reach, "false")
+}
+
+func (vc *VC) runDefers(h *Heap, reach *string, panicking string) (recovered bool) {
 	for i := len(vc.defers) - 1; i >= 0; i-- {
 		d := vc.defers[i]
 		// a deferred call executes only if its Defer instruction was reached
 		db := d.Block()
-		if !db.Dominates(vc.curBlock) {
+		if db != vc.curBlock && !db.Dominates(vc.curBlock) {
 			panic(unsupportedErr("conditional defer"))
 		}
+		if mc, ok := d.Call.Value.(*ssa.MakeClosure); ok {
+			fn := mc.Fn.(*ssa.Function)
+			if vc.inlineClosure(fn, mc, h, reach, panicking) {
+				recovered = true
+			}
+			continue
+		}
 		vc.execCall(d, d.Common(), h, reach)
+	}
+	return recovered
+}
+
+// inlineClosure executes the body of a (loop-free, parameterless) deferred closure in place.
+// It reports whether the body calls recover().
+func (vc *VC) inlineClosure(fn *ssa.Function, mc *ssa.MakeClosure, h *Heap, reach *string, panicking string) bool {
+	if len(fn.Params) != 0 || len(vc.prog.loopHeaders(fn)) != 0 {
+		panic(unsupportedErr("deferred closure with parameters or loops"))
+	}
+	for i, fv := range fn.FreeVars {
+		vc.vals[fv] = vc.value(mc.Bindings[i])
+		if a, ok := vc.addrs[mc.Bindings[i]]; ok {
+			vc.addrs[fv] = a
+		}
+	}
+	callsRecover := false
+	for _, b := range fn.Blocks {
+		for _, in := range b.Instrs {
+			if c, ok := in.(*ssa.Call); ok {
+				if bi, ok := c.Call.Value.(*ssa.Builtin); ok && bi.Name() == "recover" {
+					callsRecover = true
+				}
+			}
+		}
+	}
+	saveFn, saveBlock, savePan := vc.fn, vc.curBlock, vc.panicking
+	saveTag := vc.tagBlock
+	if vc.tagBlock == nil {
+		vc.tagBlock = vc.curBlock // lines of the inlined body belong to the block that runs the defers
+	}
+	vc.panicking = panicking
+	defer func() { vc.fn, vc.curBlock, vc.panicking, vc.tagBlock = saveFn, saveBlock, savePan, saveTag }()
+	// straight-line execution of an acyclic CFG with merges
+	type st struct {
+		reach string
+		h     *Heap
+	}
+	in := map[*ssa.BasicBlock][]st{}
+	in[fn.Blocks[0]] = []st{{*reach, h.clone()}}
+	var exits []st
+	order := rpo(fn)
+	for _, b := range order {
+		ins := in[b]
+		if len(ins) == 0 {
+			continue
+		}
+		var r string
+		var hb *Heap
+		if len(ins) == 1 {
+			r, hb = ins[0].reach, ins[0].h
+		} else {
+			var rs []string
+			for _, x := range ins {
+				rs = append(rs, x.reach)
+			}
+			r = vc.define("inl_reach", SBool, or(rs...))
+			hb = ins[len(ins)-1].h.clone()
+			for i := len(ins) - 2; i >= 0; i-- {
+				vc.mergeGuarded(hb, ins[i].h, ins[i].reach)
+			}
+		}
+		cur := r
+		for _, instr := range b.Instrs {
+			switch x := instr.(type) {
+			case *ssa.Phi:
+				panic(unsupportedErr("phi in deferred closure"))
+			case *ssa.If:
+				c := vc.value(x.Cond).S
+				in[b.Succs[0]] = append(in[b.Succs[0]], st{vc.define("inl_edge", SBool, and(cur, c)), hb.clone()})
+				in[b.Succs[1]] = append(in[b.Succs[1]], st{vc.define("inl_edge", SBool, and(cur, not(c))), hb.clone()})
+			case *ssa.Jump:
+				in[b.Succs[0]] = append(in[b.Succs[0]], st{cur, hb.clone()})
+			case *ssa.Return:
+				exits = append(exits, st{cur, hb})
+			default:
+				cur = vc.execInstr(b, instr, hb, cur)
+			}
+		}
+	}
+	if len(exits) == 0 {
+		return callsRecover
+	}
+	out := exits[len(exits)-1].h.clone()
+	for i := len(exits) - 2; i >= 0; i-- {
+		vc.mergeGuarded(out, exits[i].h, exits[i].reach)
+	}
+	*h = *out
+	return callsRecover
+}
+
+func rpo(fn *ssa.Function) []*ssa.BasicBlock {
+	seen := map[*ssa.BasicBlock]bool{}
+	var post []*ssa.BasicBlock
+	var dfs func(b *ssa.BasicBlock)
+	dfs = func(b *ssa.BasicBlock) {
+		seen[b] = true
+		for _, s := range b.Succs {
+			if !seen[s] && !s.Dominates(b) {
+				dfs(s)
+			}
+		}
+		post = append(post, b)
+	}
+	dfs(fn.Blocks[0])
+	for i, j := 0, len(post)-1; i < j; i, j = i+1, j-1 {
+		post[i], post[j] = post[j], post[i]
+	}
+	return post
+}
+
+// panicPath: in a function with a recover block, a callee that may panic gives a second way on:
+// the deferred calls run with recover() != nil and, if one of them recovers, control resumes in the
+// function's recover block.
+func (vc *VC) panicPath(h *Heap, reach string, ms *ModSet) {
+	if vc.fn.Recover == nil {
+		return
+	}
+	hp := h.clone()
+	vc.declareModSet(ms)
+	vc.havocFor(hp, ms)
+	r := reach
+	if vc.runDefers(hp, &r, "true") {
+		vc.recoverEdges = append(vc.recoverEdges, recoverEdge{r, hp})
+	} else {
+		vc.safety("panic-propagates", reach, "false", "a callee may panic and no deferred call recovers")
 	}
 }
